@@ -176,7 +176,8 @@ pub fn run(cfg: &Cfg) -> Report {
                 return;
             }
             let len = match g.below(12) { 0 => 0, 1 => 1, 2 => 2, 3 => 60 + g.below(80), 4 => 200 + g.below(200), _ => g.below(40) } as usize;
-            let style = g.below(4);
+            // long vectors of extreme values could overflow the i64 sum (std behaviour, outside the property)
+            let style = { let st0 = g.below(4); if st0 == 3 && len > 48 { 1 } else { st0 } };
             let mut vs: Vec<i64> = (0..len).map(|_| match style {
                 0 => g.below(20) as i64 - 10,
                 1 => (g.next_u64() >> 24) as i64 - (1 << 39),
@@ -192,10 +193,15 @@ pub fn run(cfg: &Cfg) -> Report {
                     let mut t: TestResults<Score<i64>> = if via_collect { vs.iter().copied().collect() } else { vs.clone().into() };
                     if st == 3 { t.total_result = t.results.iter().skip(skip).sum(); }
                     if st == 4 { t.results.reverse(); }
-                    (t.len(), t.is_empty(), format!("r={} t={}", list(&t.results.iter().map(|s| s.0).collect::<Vec<_>>()), t.total_result.0))
+                    // the three `Sum` impls of Score (over owned scores, over plain values, over references) agree
+                    let sums = [t.results.iter().cloned().sum::<Score<i64>>().0, vs.iter().copied().sum::<Score<i64>>().0, t.results.iter().sum::<Score<i64>>().0];
+                    let tag = if st == 0 && sums.iter().any(|x| *x != vs.iter().sum::<i64>()) { format!(" SUM-IMPLS={sums:?}") } else { String::new() };
+                    (t.len(), t.is_empty(), format!("r={} t={}{tag}", list(&t.results.iter().map(|s| s.0).collect::<Vec<_>>()), t.total_result.0))
                 } else {
                     let t: TestResults<Error<i64>> = if via_collect { vs.iter().copied().collect() } else { vs.clone().into() };
-                    (t.len(), t.is_empty(), format!("r={} t={}", list(&t.results.iter().map(|s| s.0).collect::<Vec<_>>()), t.total_result.0))
+                    let sums = [t.results.iter().cloned().sum::<Error<i64>>().0, vs.iter().copied().sum::<Error<i64>>().0, t.results.iter().sum::<Error<i64>>().0];
+                    let tag = if st == 0 && sums.iter().any(|x| *x != vs.iter().sum::<i64>()) { format!(" SUM-IMPLS={sums:?}") } else { String::new() };
+                    (t.len(), t.is_empty(), format!("r={} t={}{tag}", list(&t.results.iter().map(|s| s.0).collect::<Vec<_>>()), t.total_result.0))
                 }
             });
             let req = format!("res sum {} {}", if score { "score" } else { "error" }, list(&vs));
@@ -248,6 +254,14 @@ pub fn run(cfg: &Cfg) -> Report {
                 r.violate(json!({"case": req, "real": real, "spec": spec_s, "what": "the individual does not carry the generated genome with that genome's score"}));
             } else if real != impl_s || !same_stream {
                 r.disagree(json!({"case": req, "real": real, "impl": impl_s, "same_generator_state_after": same_stream}));
+            }
+            // `EcIndividual::from((genome, results))` / `new` carry exactly what they were given
+            {
+                let from_pair: EcIndividual<Vec<u64>, TestResults<Score<i64>>> = (ind.genome.clone(), ind.test_results.clone()).into();
+                let by_new = EcIndividual::new(ind.genome.clone(), ind.test_results.clone());
+                if from_pair != ind || by_new != ind || from_pair.genome != ind.genome || from_pair.test_results != ind.test_results {
+                    r.violate(json!({"case": req, "what": "EcIndividual::from((genome, results)) / new does not carry exactly the genome and the results it was created from"}));
+                }
             }
             // GenomeScorer as an operator (model-free oracle here; its stream behaviour is tied in the `ops` family)
             let pop: Vec<Ind> = (0..1 + g.below(5)).map(|k| Ind::new(V::Leaf(g.below(100)), V::Leaf(k))).collect();
